@@ -22,10 +22,22 @@ def _pin():
     OS threads on different CPUs cost cross-CPU wake-ups (measured 14x CPU time on 16 workers)."""
     try:
         cpus = sorted(os.sched_getaffinity(0))
+        die_with_parent()
         ident = mp.current_process()._identity
         k = (ident[0] - 1) if ident else 0
         os.sched_setaffinity(0, {cpus[k % len(cpus)]})
     except (AttributeError, OSError):
+        pass
+
+
+def die_with_parent():
+    """Workers must not outlive a killed parent (watchdog, timeout): PR_SET_PDEATHSIG = SIGKILL."""
+    try:
+        import ctypes  # noqa: PLC0415
+        import signal  # noqa: PLC0415
+
+        ctypes.CDLL("libc.so.6", use_errno=True).prctl(1, int(signal.SIGKILL), 0, 0, 0)
+    except Exception:  # noqa: BLE001
         pass
 
 
